@@ -135,6 +135,19 @@ Theorem C17_copy_isolated : forall h fuel roots n0 s,
 Proof. exact clone_isolated. Qed.
 Print Assumptions C17_copy_isolated.
 
+(* what a copied object keeps literally: names and order of its properties, their attribute
+   modes, class, extensibility, and the complete parameter-name table of an arguments object
+   (blanked entries in the middle included) *)
+Theorem C17_copy_keeps_shape : forall h fuel roots n0 s l o,
+  clone_roots h fuel roots n0 = Ok s -> In l (keys (memo s)) -> lookup h l = Some (CObj o) ->
+  exists o', lookup (out s) (app_memo (memo s) l) = Some (CObj o') /\
+    map fst (o_props o') = map fst (o_props o) /\
+    map (fun np => prop_mode (snd np)) (o_props o') = map (fun np => prop_mode (snd np)) (o_props o) /\
+    o_class o' = o_class o /\ o_ext o' = o_ext o /\
+    args_table (o_pay o') = args_table (o_pay o).
+Proof. exact clone_keeps_shape. Qed.
+Print Assumptions C17_copy_keeps_shape.
+
 (* copies of copies: isomorphisms compose, so a copy of a copy is a copy of the original
    (and by C17_observational_equiv answers every observation program like it) *)
 Theorem C17_copy_of_copy : forall h h' h'' phi psi,
